@@ -337,6 +337,9 @@ class Evaluator:
                         written_attrs.append(t)
             elif isinstance(n, (ast.comprehension,)):
                 pass
+            elif isinstance(n, ast.Call) and isinstance(n.func, ast.Attribute) and n.func.attr in ('extend', 'append') and \
+                    isinstance(n.func.value, ast.Name) and isinstance(st.env.get(n.func.value.id), (SymList, list)):
+                written_names.add(n.func.value.id)         # a symbolic list grown in place is written by the loop
         reads = []
         for n in ast.walk(s):
             if isinstance(n, ast.Name) and isinstance(n.ctx, ast.Load) and n.id in st.env and n.id not in written_names:
@@ -769,6 +772,14 @@ class Evaluator:
         name = f.id if isinstance(f, ast.Name) else (f.attr if isinstance(f, ast.Attribute) else None)
         base = None
         callee = None
+        if isinstance(f, ast.Attribute) and isinstance(f.value, ast.Name) and f.attr in ('extend', 'append') and len(args) == 1 and \
+                not kwargs and isinstance(st.env.get(f.value.id), (SymList, list)):
+            # a symbolic list grown in place: the value of  l.extend(x) / l.append(x)  is that of  l = l + x / l + [x]
+            cur = st.env[f.value.id]
+            add = args[0] if f.attr == 'extend' else [args[0]]
+            if isinstance(add, (SymList, list)):
+                st.env[f.value.id] = self.binop(ast.Add(), cur, add)
+                return Const(None) if 'Const' in globals() else C(0)
         if isinstance(f, ast.Name):
             if f.id in st.env:       # local callable
                 rec = CallRec(name, None, args, kwargs, list(st.pc), e)
